@@ -303,6 +303,30 @@ def closure_body(fns, make_header, span):
     return None
 
 
+def interpreted_def(f, ar, s):
+    """primitives with an exact SMT-LIB FloatingPoint meaning are DEFINED (so a difference between two exact
+    formulas, e.g. round(a) vs trunc(a + copysign(0.5, a)), yields a real operand and not an arbitrary function
+    interpretation); everything else (transcendental functions, powf, powi, min/max on signed zeros) stays
+    uninterpreted. NaN carries no sign in SMT-LIB: a model that relies on it does not reproduce and is a SUSPECT."""
+    one = fp_const("1.0", s)
+    rm = {"F_round": "RNA", "F_trunc": "RTZ", "F_floor": "RTN", "F_ceil": "RTP"}
+    if f in rm and ar == 1:
+        return f"(define-fun {f} ((x {s})) {s} (fp.roundToIntegral {rm[f]} x))"
+    if f == "F_abs" and ar == 1:
+        return f"(define-fun {f} ((x {s})) {s} (fp.abs x))"
+    if f == "F_sqrt" and ar == 1:
+        return f"(define-fun {f} ((x {s})) {s} (fp.sqrt RNE x))"
+    if f == "F_fract" and ar == 1:
+        return f"(define-fun {f} ((x {s})) {s} (fp.sub RNE x (fp.roundToIntegral RTZ x)))"
+    if f == "F_signum" and ar == 1:
+        return f"(define-fun {f} ((x {s})) {s} (ite (fp.isNaN x) x (ite (fp.isNegative x) (fp.neg {one}) {one})))"
+    if f == "F_copysign" and ar == 2:
+        return f"(define-fun {f} ((x {s}) (y {s})) {s} (ite (fp.isNaN x) x (ite (fp.isNegative y) (fp.neg (fp.abs x)) (fp.abs x))))"
+    if f == "F_mul_add" and ar == 3:
+        return f"(define-fun {f} ((x {s}) (y {s}) (z {s})) {s} (fp.fma RNE x y z))"
+    return None
+
+
 def fp_sort(width):
     return "(_ FloatingPoint 11 53)" if width == 64 else "(_ FloatingPoint 8 24)"
 
@@ -443,7 +467,8 @@ def run(pid, tier, seed):
                     if kind == "ufc":
                         lemmas.append(f"(assert (= ({fname} a b) ({fname} b a)))")
                 for (f, ar) in sorted(ufs):
-                    decl.append(f"(declare-fun {f} ({' '.join([s] * ar)}) {s})")
+                    d = interpreted_def(f, ar, s)
+                    decl.append(d if d else f"(declare-fun {f} ({' '.join([s] * ar)}) {s})")
                 base = "(set-logic ALL)\n(set-option :produce-models true)\n" + "\n".join(decl + lemmas) + f"\n(assert (not (= {body} {spec_t})))\n(check-sat)\n"
                 verdict, rest, dt = z3_query(base, timeout)
                 solver_s += dt
@@ -485,7 +510,9 @@ def run(pid, tier, seed):
     return res
 
 
-SPECIALS = [0.0, -0.0, 1.0, -1.0, 0.5, 2.0, -3.0, 10.0, 0.1, float("inf"), float("-inf"), float("nan"), 5e-324, 1e300]
+SPECIALS = [0.0, -0.0, 1.0, -1.0, 0.5, 2.0, -3.0, 10.0, 0.1, float("inf"), float("-inf"), float("nan"), 5e-324, 1e300,
+            1.5, 2.5, -2.5, -0.5, 0.49999999999999994, -0.49999999999999994, 0.4999999701976776, 4503599627370497.0, 8388609.0, 9007199254740992.0,
+            1e-310, 1.7976931348623157e308, -1e300, 3.0, 100.0, 0.25]
 
 
 def native_replay(f):
